@@ -91,8 +91,9 @@ Inductive inc_result := IR_fail | IR_repl (nodes : list node) (hist' : list path
     a violation is a DOMException(HIERARCHY_REQUEST_ERR) that leaves parse()/doXIncludeDOMProcess *)
 Fixpoint count_elem_nodes (l : list node) : nat :=
   match l with [] => O | Elem _ _ _ _ :: r => S (count_elem_nodes r) | _ :: r => count_elem_nodes r end.
+(* isKidOK: "(p==DOCUMENT_NODE && ch==TEXT_NODE && isAllSpaces(value))" -- white-space-only text is accepted (and kept) *)
 Fixpoint has_text_node (l : list node) : bool :=
-  match l with [] => false | Text _ :: _ => true | _ :: r => has_text_node r end.
+  match l with [] => false | Text s :: r => negb (is_ws s) || has_text_node r | _ :: r => has_text_node r end.
 Definition doc_kids_ok (l : list node) : bool :=
   negb (has_text_node l) && Nat.leb (count_elem_nodes l) 1.
 
